@@ -482,7 +482,98 @@ def k_fdf_value(d):
     return {'reproduced': not ok, 'detail': detail}
 
 
-KINDS = {'fdf_value': k_fdf_value, 'cli_session': k_cli_session, 'field_value': k_field_value, 'figure_tax': k_figure_tax, 'solve': k_solve, 'program': k_program, 'input_value': k_input_value}
+def k_field_roundtrip(d):
+    from habutax import fields as F, enum as E
+    en = E.make('Color', {'red': 'r', 'green': 'g', 'Blue_2': 'b'})
+    fn = lambda s, i, v: None
+    f, p, raw = d['field'], d['places'], d['value']
+    if f == 'BooleanField':
+        fld, v = F.BooleanField('ln', fn), raw == 'True'
+    elif f == 'IntegerField':
+        fld, v = F.IntegerField('ln', fn), int(raw)
+    elif f == 'FloatField':
+        fld, v = F.FloatField('ln', fn, places=p), float(Fraction(raw))
+    elif f == 'EnumField':
+        k = int(raw)
+        fld, v = F.EnumField('ln', en, fn), (None if k < 0 else list(en)[k])
+    else:
+        fld, v = F.StringField('ln', fn), raw
+    try:
+        back = fld.from_string(fld.to_string(v))
+        ok = back == v and type(back) is type(v)
+        detail = '%r -> %r -> %r' % (v, fld.to_string(v), back)
+    except Exception as e:
+        ok, detail = False, '%r -> %s' % (v, type(e).__name__)
+    return {'reproduced': not ok, 'detail': detail}
+
+
+def k_solution_roundtrip(d):
+    """real solve -> solution file (with the [habutax] year tag) -> the filler's
+    typed re-read: every value must come back equal."""
+    import argparse, configparser, contextlib, io, os, tempfile
+    import habutax
+    from habutax import forms, pdf_filler
+    tmp = tempfile.mkdtemp(prefix='hvsol')
+    infile = os.path.join(tmp, 'in.habutax')
+    cp = configparser.ConfigParser()
+    for name, text in d['inputs'].items():
+        sec, key = name.split('.', 1)
+        if not cp.has_section(sec):
+            cp.add_section(sec)
+        cp.set(sec, key, text.replace('%', '%%'))
+    with open(infile, 'w') as f:
+        cp.write(f)
+    solfile = os.path.join(tmp, 'sol.txt')
+    args = argparse.Namespace(input_file=infile, year=d['year'], forms=list(d['forms']), prompt_missing=False, writeback_input=False, solution=solfile)
+    with contextlib.redirect_stdout(io.StringIO()):
+        habutax.solve(args)
+    direct = run_solve(d['year'], d['forms'], d['inputs'])
+    sol = configparser.ConfigParser()
+    with open(solfile) as f:
+        sol.read_file(f)
+    year_tag = sol.getint('habutax', 'tax_year')
+    sol.remove_section('habutax')
+    filler = pdf_filler.PDFFiller(sol, forms.available_forms[year_tag], os.path.join(tmp, 'out.pdf'))
+    cmds = []
+    import subprocess
+    old = pdf_filler.subprocess.run
+    pdf_filler.subprocess.run = lambda cmd, check=True: cmds.append(cmd)
+    try:
+        filler.fill()
+    finally:
+        pdf_filler.subprocess.run = old
+    # compare typed values with what the solver held
+    from habutax import solver as hsolver, inputs as hinputs
+    cp2 = configparser.ConfigParser()
+    with open(infile) as f:
+        cp2.read_file(f)
+    s = hsolver.Solver(hinputs.InputStore(cp2), forms.available_forms[d['year']])
+    s.solve(list(d['forms']))
+    bad = []
+    n = 0
+    for k, v in s._v.values.items():
+        n += 1
+        back = filler._values.values.get(k, '<missing>')
+        import enum as _e
+        if isinstance(v, str):
+            same = isinstance(back, str) and back == v.strip()
+        elif isinstance(v, _e.Enum):
+            # enumerations are created per form instance: compare by member
+            same = isinstance(back, _e.Enum) and back.name == v.name and type(back).__name__ == type(v).__name__
+        else:
+            same = back == v and type(back) is type(v)
+        if not same:
+            bad.append((k, repr(v), repr(back)))
+    import shutil
+    shutil.rmtree(tmp, ignore_errors=True)
+    ok = not bad and year_tag == d['year'] and n > 20
+    out = {'ok': ok, 'compared': n, 'year_tag': year_tag, 'detail': repr(bad[:3]), 'inputs': d['inputs']}
+    if d.get('expect'):
+        out['reproduced'] = not ok
+    return out
+
+
+KINDS = {'field_roundtrip': k_field_roundtrip, 'solution_roundtrip': k_solution_roundtrip, 'fdf_value': k_fdf_value, 'cli_session': k_cli_session, 'field_value': k_field_value, 'figure_tax': k_figure_tax, 'solve': k_solve, 'program': k_program, 'input_value': k_input_value}
 
 
 def main():
